@@ -17,6 +17,7 @@ import os
 import struct as _struct
 import sys
 import types
+import collections as _collections
 import z3
 from .engine import bvv
 
@@ -587,7 +588,7 @@ class SX(object):
                 n = _struct.calcsize(fmt)
                 return _struct_unpack(fmt, mk_bytes(items_of(a[0])[off:off + n]))
             raise EngineLimit('struct.%s with symbolic argument' % fname)
-        if isinstance(obj, (list, dict, set, tuple, types.GeneratorType)) or \
+        if isinstance(obj, (list, dict, set, tuple, types.GeneratorType, _collections.deque, _collections.OrderedDict, _collections.defaultdict)) or \
                 isinstance(f, (types.FunctionType, types.MethodType)) or isinstance(obj, type):
             # containers hold symbolic values natively; python-level callables just get them
             return f(*a, **k)
